@@ -491,9 +491,15 @@ type endless struct {
 	head []byte
 	tail func(i int) byte
 	n    int // bytes delivered
+	seg  int // > 0: a Read never crosses a multiple of seg (a transport that delivers the stream in segments)
 }
 
 func (e *endless) Read(p []byte) (int, error) {
+	if e.seg > 0 && len(p) > 0 {
+		if room := e.seg - e.n%e.seg; len(p) > room {
+			p = p[:room]
+		}
+	}
 	for i := range p {
 		if e.n < len(e.head) {
 			p[i] = e.head[e.n]
@@ -623,7 +629,7 @@ func checkFrame(c FrameCase) error {
 			}
 			head = append(append([]byte{}, wire...), w2...)
 		}
-		src := &endless{head: head, tail: tailConst(0xA5)}
+		src := &endless{head: head, tail: tailConst(0xA5), seg: []int{0, 0, 1, 3, 16, 1448, 4096}[int(c.Seed>>20)%7]}
 		got, err := readObj(t, src)
 		if c.Class == "batch+1" {
 			// one element over the batch limit: either refused, or delivered intact; never truncated
